@@ -82,6 +82,51 @@ fn check_case(c: &Case, obs: &mut Obs) -> Verdict {
             cands.iter().map(|s| ref_ratio(&c.word.0, s)).collect::<Vec<_>>()
         ));
     }
+    if all_valid {
+        // (a) the word and some candidates are windows of ONE buffer (the word is a prefix of a
+        // candidate, candidates are prefixes / tails of the word's buffer)
+        let buf: String = format!("{}{}", c.word.as_str().unwrap(), c.cands.first().and_then(|s| s.as_str()).unwrap_or(""));
+        let wl = c.word.0.len();
+        let mut cuts: Vec<usize> = vec![buf.len(), wl, wl / 2, 0];
+        cuts.retain(|k| buf.is_char_boundary(*k));
+        let mut al: Vec<&str> = cuts.iter().map(|k| &buf[..*k]).collect();
+        if buf.is_char_boundary(wl / 2) {
+            al.push(&buf[wl / 2..]);
+        }
+        let extra: Vec<&str> = c.cands.iter().skip(1).map(|s| s.as_str().unwrap()).collect();
+        al.extend(extra);
+        let word = &buf[..wl];
+        match guard(|| get_close_matches(word, &al, c.n, c.cutoff)) {
+            Ok(got) => {
+                let mut ranked: Vec<(f32, &str)> = al.iter().map(|s| (ref_ratio(word.as_bytes(), s.as_bytes()), *s)).filter(|(r, _)| *r >= c.cutoff).collect();
+                ranked.sort_by(|a, b| b.0.partial_cmp(&a.0).unwrap().then(a.1.as_bytes().cmp(b.1.as_bytes())));
+                let want: Vec<&str> = ranked.iter().take(c.n).map(|(_, s)| *s).collect();
+                if got != want {
+                    return Verdict::Fail(format!("get_close_matches with the word {:?} and the candidates {:?} being windows of one buffer (n={}, cutoff={}) = {:?}, exhaustive ranking gives {:?}", word, al, c.n, c.cutoff, got, want));
+                }
+            }
+            Err(p) => return Verdict::Fail(format!("get_close_matches over windows of one buffer: {}", p)),
+        }
+        // (b) a caller-defined case-insensitive text type: candidates spelled in upper case
+        if c.word.0.is_ascii() && c.cands.iter().all(|s| s.0.is_ascii()) {
+            use crate::oracle::cistr::CiStr;
+            let ups: Vec<String> = c.cands.iter().map(|s| s.as_str().unwrap().to_ascii_uppercase()).collect();
+            let ci: Vec<&CiStr> = ups.iter().map(|s| CiStr::new(s)).collect();
+            let w = c.word.as_str().unwrap().to_ascii_lowercase();
+            match guard(|| get_close_matches(CiStr::new(&w), &ci, c.n, c.cutoff)) {
+                Ok(got) => {
+                    let got: Vec<String> = got.iter().map(|s| s.as_plain().to_ascii_lowercase()).collect();
+                    let mut ranked: Vec<(f32, String)> = ups.iter().map(|s| s.to_ascii_lowercase()).map(|s| (ref_ratio(w.as_bytes(), s.as_bytes()), s)).filter(|(r, _)| *r >= c.cutoff).collect();
+                    ranked.sort_by(|a, b| b.0.partial_cmp(&a.0).unwrap().then(a.1.as_bytes().cmp(b.1.as_bytes())));
+                    let want: Vec<String> = ranked.into_iter().take(c.n).map(|(_, s)| s).collect();
+                    if got != want {
+                        return Verdict::Fail(format!("get_close_matches over a caller-defined case-insensitive text type: word {:?}, candidates {:?} (n={}, cutoff={}) = {:?} (case folded), exhaustive ranking gives {:?}", w, ups, c.n, c.cutoff, got, want));
+                    }
+                }
+                Err(p) => return Verdict::Fail(format!("get_close_matches over a caller-defined text type: {}", p)),
+            }
+        }
+    }
     let exact = cands.iter().any(|s| ref_ratio(&c.word.0, s) == c.cutoff);
     let ties = ranked.windows(2).any(|w| w[0].0 == w[1].0 && w[0].1 != w[1].1);
     obs.nontrivial = !want.is_empty() && want.len() < c.cands.len();
@@ -222,13 +267,41 @@ impl Prop for C18 {
     type Case = Case;
     const ID: &'static str = "C18";
     fn rule() -> String {
-        "cases = (word, 0-10 candidates, n in 0..6 | usize::MAX | 2^60, cutoff, str | [u8]); 1 case in ~120 has 33-120 candidates over a two/three-letter alphabet (large groups of equal ratios, n cutting through a group); 1 case in ~60 uses words of 100-300 symbols with candidates 1-6 edits away (ratios that differ by less than 1e-4); words over a 7-symbol alphabet incl. multi-byte and a combining sequence, for [u8] additionally 4 non-UTF-8 symbols (latin-1 byte, 0xFF, lone continuation byte, truncated 4-byte sequence; a character of a byte string = one scalar value or one maximal invalid subpart); candidates independent or 1-2 edits away from the word, duplicates and empty strings included; cutoff in {0, 0.5, 0.6, 1.0} | the exact ratio of one candidate (so '>= cutoff' is hit exactly) | hundredths. Oracle: brute force — ratio = 2*LCS(chars)/(n+m) by an independent DP (1.0 for two empty strings), keep ratio >= cutoff, sort by ratio descending then candidate ascending (bytewise), take n, compare as value lists. Non-trivial = result non-empty and shorter than the candidate list; distinct = distinct serialized case.".into()
+        "cases = (word, 0-10 candidates, n in 0..6 | usize::MAX | 2^60, cutoff, str | [u8]); 1 case in ~120 has 33-120 candidates over a two/three-letter alphabet (large groups of equal ratios, n cutting through a group); 1 case in ~60 uses words of 100-300 symbols with candidates 1-6 edits away (ratios that differ by less than 1e-4); words over a 7-symbol alphabet incl. multi-byte and a combining sequence, for [u8] additionally 4 non-UTF-8 symbols (latin-1 byte, 0xFF, lone continuation byte, truncated 4-byte sequence; a character of a byte string = one scalar value or one maximal invalid subpart); candidates independent or 1-2 edits away from the word, duplicates and empty strings included; cutoff in {0, 0.5, 0.6, 1.0} | the exact ratio of one candidate (so '>= cutoff' is hit exactly) | hundredths. Valid-UTF-8 cases are also run with the word and candidates being WINDOWS OF ONE BUFFER, and ASCII cases over a caller-defined case-insensitive DiffableStr (candidates in upper case). Oracle: brute force — ratio = 2*LCS(chars)/(n+m) by an independent DP (1.0 for two empty strings), keep ratio >= cutoff, sort by ratio descending then candidate ascending (bytewise), take n, compare as value lists. Non-trivial = result non-empty and shorter than the candidate list; distinct = distinct serialized case.".into()
     }
     fn assumptions() -> Vec<String> {
         vec!["ratios are computed in f32 with the same expression as the documented formula; for words up to a few hundred symbols distinct f32 ratios stay distinct under the library's scaling to u32 (exact power-of-two scaling for ratios >= 2^-8)".into()]
     }
     fn stages(tier: Tier) -> Vec<Stage<Case>> {
-        vec![Stage { name: "random", kind: StageKind::Random { strategy: strat, cases: tier.pick(1_000_000, 6_000_000) } }]
+        let mut v = vec![];
+        if tier == Tier::Thorough {
+            // one call that keeps the library busy for about a second: 9000 unrelated 300-symbol
+            // candidates followed by three near copies of the word (a per-call time budget instead of
+            // a per-comparison one would drop the late ones)
+            v.push(Stage {
+                name: "heavy-call",
+                kind: StageKind::Enumerate {
+                    scope: "1 fixed call: a 300-symbol word over 4 letters, 9000 unrelated 300-symbol candidates, then 3 candidates 4-6 edits away; n = 5, cutoff 0.9".into(),
+                    exhaustive: true,
+                    gen: |_t, f| {
+                        let sym = |x: u32| [b'a', b'c', b'g', b't'][x as usize];
+                        let word: Vec<u8> = lcg_seq(900, 300, 4).into_iter().map(sym).collect();
+                        let mut cands: Vec<BStr> = (0..9000u64).map(|i| BStr(lcg_seq(1000 + i, 300, 4).into_iter().map(sym).collect())).collect();
+                        for k in 0..3usize {
+                            let mut w = word.clone();
+                            for e in 0..4 + k {
+                                let p = (e * 53 + k * 17) % w.len();
+                                w[p] = if w[p] == b'a' { b'c' } else { b'a' };
+                            }
+                            cands.push(BStr(w));
+                        }
+                        f(Case { word: BStr(word), cands, n: 5, cutoff: 0.9, bytes: false });
+                    },
+                },
+            });
+        }
+        v.push(Stage { name: "random", kind: StageKind::Random { strategy: strat, cases: tier.pick(1_000_000, 6_000_000) } });
+        v
     }
     fn check(case: &Case, obs: &mut Obs) -> Verdict {
         check_case(case, obs)
